@@ -605,9 +605,24 @@ func vvcRunOrder(t *testing.T, res *vResult, cs *vvcCase, ord []int, kinds, eqcl
 		if m.Num != "ok" {
 			v.Number += 3
 		}
+		sig := vgpSign(m.ID, stage, v, m.Sig)
+		if m.Sig != "ok" && (m.ID+m.B+vvcRuns)%2 == 0 {
+			// another way for a signature to be invalid: the SAME authority's genuine signature of this round, taken from another
+			// of its votes in the case (another block or the other stage) and replayed under this vote
+			for _, d := range cs.O.Ms {
+				if d.ID == m.ID && d.Sig == "ok" && d.Num == "ok" && d.B != 0 && (d.B != m.B || d.Stage != m.Stage) {
+					ds := prevote
+					if d.Stage == "precommit" {
+						ds = precommit
+					}
+					sig = vgpSign(d.ID, ds, Vote{Hash: e.hashes[d.B-1], Number: uint32(e.headers[d.B-1].Number)}, "ok")
+					break
+				}
+			}
+		}
 		vm := &VoteMessage{Round: vgpRound, SetID: vgpSetID, Message: SignedMessage{
 			Stage: stage, BlockHash: v.Hash, Number: v.Number,
-			Signature:   vgpSign(m.ID, stage, v, m.Sig),
+			Signature:   sig,
 			AuthorityID: vgpKey(m.ID).Public().(*ed25519.PublicKey).AsBytes(),
 		}}
 		if pm := vTry(func() { _, _ = s.validateVoteMessage(peer.ID("p"), vm) }); pm != "" {
